@@ -20,21 +20,27 @@ Proof.
   - intros H. exists x. split; auto. apply N.eqb_refl.
 Qed.
 
-Theorem judge_sound strat offered sc final_ids explicit fee :
-  judge strat offered sc final_ids explicit fee = Holds ->
+Theorem judge_sound strat offered sc final_ids explicit fee prefix :
+  judge strat offered sc final_ids explicit fee prefix = Holds ->
   let pre := imap_of_list (sc_pre sc) in
+  let eff := filter_offered (ids pre) offered in
   let inputs := judge_inputs offered pre final_ids in
-  scenario_wf offered sc /\ distinct_outpoints offered sc /\
+  scenario_wf offered sc /\ pre_distinct sc /\
   NoDup final_ids /\ (forall x, In x final_ids -> In x (ids pre) \/ In x (ids offered)) /\
   incl (ids pre) final_ids /\
   (exists total, sum_values value_zero (map u_val inputs) = Ok total /\ value_eqb_sem total explicit = true) /\
   covers_coin sc inputs fee /\ covers_assets sc inputs /\
-  (lf_clause_applies strat sc = true -> lf_largest_b offered (ids pre) final_ids = true).
+  (lf_clause_applies strat sc = true ->
+     lf_largest_b eff (ids pre) final_ids = true /\
+     forall w, lf_last_added eff (ids pre) final_ids = Some w ->
+       exists g, prefix = Some (u_id w, g) /\
+                 ~ covers_coin sc (filter (fun u => negb (u_id u =? u_id w)) inputs) g).
 Proof.
   unfold judge. intros H.
   destruct (premises_b offered sc) eqn:Ep; cbn [negb] in H; [|discriminate H].
   destruct (premises_sound _ _ Ep) as [W D].
   set (pre := imap_of_list (sc_pre sc)) in *.
+  set (eff := filter_offered (ids pre) offered) in *.
   destruct (nodup_b final_ids && forallb (fun x => mem_b x (ids pre) || mem_b x (ids offered)) final_ids) eqn:E1;
     cbn [negb] in H; [|discriminate H].
   destruct (forallb (fun x => mem_b x final_ids) (ids pre)) eqn:E2; cbn [negb] in H; [|discriminate H].
@@ -42,9 +48,7 @@ Proof.
   destruct (sum_values value_zero (map u_val inputs)) as [total| | |] eqn:Es; try discriminate H.
   destruct (value_eqb_sem total explicit) eqn:E3; cbn [negb] in H; [|discriminate H].
   destruct (covers_qb ByCoin sc inputs fee) eqn:E4; cbn [negb] in H; [|discriminate H].
-  destruct (lf_clause_applies strat sc && negb (lf_largest_b offered (ids pre) final_ids)) eqn:E6; [discriminate H|].
-  destruct (forallb (fun s => covers_qb s sc inputs 0) (demand_selectors sc)) eqn:E5;
-    [|destruct (burn_class strat sc); discriminate H].
+  destruct (forallb (fun s => covers_qb s sc inputs 0) (demand_selectors sc)) eqn:E5; cbn [negb] in H; [|discriminate H].
   apply Bool.andb_true_iff in E1. destruct E1 as [E1a E1b].
   cbn zeta. conj; auto.
   - apply nodup_b_sound. exact E1a.
@@ -63,5 +67,12 @@ Proof.
         apply in_map_iff in Hv. destruct Hv as [o [<- Ho]].
         apply in_flat_map. exists o. split; auto. apply selectors_complete. exact Hq. }
     rewrite forallb_forall in E5. specialize (E5 _ Hin). unfold covers_qb in E5. apply N.leb_le. exact E5.
-  - intros Hl. rewrite Hl in E6. cbn [andb] in E6. apply Bool.negb_false_iff in E6. exact E6.
+  - intros Hl. rewrite Hl in H.
+    destruct (lf_largest_b eff (ids pre) final_ids) eqn:E6; cbn [negb] in H; [|discriminate H].
+    split; [reflexivity|]. intros w Hw. rewrite Hw in H.
+    destruct prefix as [[x g]|]; [|discriminate H].
+    destruct ((u_id w =? x) && negb (covers_qb ByCoin sc (filter (fun u => negb (u_id u =? x)) inputs) g)) eqn:E7; [|discriminate H].
+    apply Bool.andb_true_iff in E7. destruct E7 as [E7a E7b]. apply N.eqb_eq in E7a. subst x.
+    exists g. split; [reflexivity|]. apply Bool.negb_true_iff in E7b.
+    unfold covers_coin, covers_q. unfold covers_qb in E7b. apply N.leb_gt in E7b. lia.
 Qed.
